@@ -170,3 +170,44 @@ def execute(prop_mod, seed, tier='quick', replay=None, index=None, keep_events=F
                   post=ctx.post, steps=ctx.steps, digest=ctx.log.hexdigest(), scenario=ctx.scenario,
                   tape=ctx.tape.export(), known=ctx.known, ndraws=ctx.tape.ndraws,
                   extra=(ctx.log.events if keep_events else None))
+
+
+def execute_isolated(prop_mod, prefix_seeds, seed, tier='quick', replay=None, keep_events=False, wall_limit=120, opts=None):
+    """Execute in a forked child: first the scenarios of `prefix_seeds` (the runs
+    that preceded the target in its worker chunk - process state such as caches or
+    the global RNG may carry over), then the target.  Returns the target's Result.
+    A child that dies is reported as the violation class `interpreter_crash`."""
+    import pickle
+    r, w = os.pipe()
+    pid = os.fork()
+    if pid == 0:
+        code = 0
+        try:
+            os.close(r)
+            for ps in prefix_seeds:
+                execute(prop_mod, ps, tier, wall_limit=wall_limit, opts=opts)
+            res = execute(prop_mod, seed, tier, replay=replay, keep_events=keep_events, wall_limit=wall_limit, opts=opts)
+            data = pickle.dumps(res)
+            off = 0
+            while off < len(data):
+                off += os.write(w, data[off:off + 65536])
+        except BaseException:       # noqa
+            code = 3
+        finally:
+            os._exit(code)
+    os.close(w)
+    chunks = []
+    while True:
+        b = os.read(r, 1 << 20)
+        if not b:
+            break
+        chunks.append(b)
+    os.close(r)
+    _, status = os.waitpid(pid, 0)
+    if os.WIFSIGNALED(status) or not chunks:
+        sig = os.WTERMSIG(status) if os.WIFSIGNALED(status) else None
+        return Result(index=None, seed=seed, status='violation', vclass='interpreter_crash',
+                      detail='the interpreter died (signal %s) while executing the run' % sig, fingerprint='', nontrivial=False,
+                      counters={}, faults={}, reach={}, post={}, steps=0, digest='', scenario={}, tape=replay or {}, known=[],
+                      ndraws=0, extra=None)
+    return pickle.loads(b''.join(chunks))
